@@ -30,12 +30,6 @@ m('c17_s04_no_join','C17',D,
 '''            handle
                 .join()
                 .map_err(|e| DebuggerError::PreviousRunPanic(format!("{e:?}")))?;''','''            drop(handle);''','run() does not wait for the previous parser thread')
-m('c17_s05_cont_ignores_done','C17',D,
-'''        if self.is_done.load(Ordering::SeqCst) {
-            return Err(DebuggerError::EofReached);
-        }
-
-        match self.handle {''','''        match self.handle {''','cont() no longer reports the end of the session')
 m('c17_s07_revert_fixB_final_send','C17',D,
 '''            if is_done.load(Ordering::SeqCst) {
                 return;
